@@ -89,6 +89,30 @@ func drawC08(t *rapid.T) caseC08 {
 			c.Steps = []stepW2{{Op: "write", Seg: &first, More: r[1:]}, {Op: "close"}}
 		}
 	}
+	if c.Cfg.Matcher == 0 && rapid.IntRange(0, 11).Draw(t, "exact2mib") == 0 {
+		// highly redundant data whose length since the last chunk boundary is
+		// exactly (or one off) a multiple of the 2 MiB uncompressed chunk
+		// limit, then a Flush: the chunk is closed by Write itself and nothing
+		// is pending when Flush runs
+		n := rapid.SampledFrom([]int{1<<21 - 1, 1 << 21, 1 << 21, 1<<21 + 1, 2 << 21}).Draw(t, "e2len")
+		run := gen.Seg{Kind: "run", B: rapid.Byte().Draw(t, "e2byte"), Len: n}
+		c.Steps = nil
+		if rapid.Bool().Draw(t, "e2split") {
+			half := run
+			half.Len = n / 2
+			rest := run
+			rest.Len = n - n/2
+			c.Steps = append(c.Steps, stepW2{Op: "write", Seg: &half}, stepW2{Op: "write", Seg: &rest})
+		} else {
+			c.Steps = append(c.Steps, stepW2{Op: "write", Seg: &run})
+		}
+		c.Steps = append(c.Steps, stepW2{Op: "flush"})
+		if rapid.Bool().Draw(t, "e2more") {
+			tail := gen.Seg{Kind: "text", K: 4, Len: rapid.IntRange(1, 300).Draw(t, "e2tail"), Seed: 21}
+			c.Steps = append(c.Steps, stepW2{Op: "write", Seg: &tail}, stepW2{Op: "flush"})
+		}
+		c.Steps = append(c.Steps, stepW2{Op: "close"})
+	}
 	if rapid.IntRange(0, 11).Draw(t, "mixwrite") == 0 {
 		// a few hundred kilobytes of interleaved literal runs and copies in one
 		// or two writes: several chunk limits inside one call
